@@ -43,6 +43,52 @@ class Builder:
             return cls(e.elt, gens, conds, e)
         return None
 
+    def composed(self, lookup=None):
+        """a generator that ranges over a materialised comprehension of tuples is the same collection as the fused one:
+             {E(a, b) | (a, b) in [(F(x), G(x)) for x in IT if D(x)]; C(a, b)}  ==  {E(F(x), G(x)) | x in IT; D(x) and C(F(x), G(x))}
+        `lookup(name)` may supply the defining expression of a name used as an iterable."""
+        cur = self
+        for _ in range(4):
+            changed = False
+            for i, (t, it) in enumerate(cur.gens):
+                src = strip_wrappers(it)
+                if isinstance(src, ast.Name) and lookup is not None:
+                    d = lookup(src.id)
+                    if d is not None:
+                        src = strip_wrappers(d)
+                if isinstance(src, ast.Name) and lookup is not None:
+                    d = lookup(src.id)
+                    if d is not None:
+                        src = strip_wrappers(d)
+                inner = Builder.of_comprehension(src) if isinstance(src, (ast.ListComp, ast.GeneratorExp, ast.SetComp)) else None
+                if inner is None:
+                    continue
+                inner = inner.composed(lookup)
+                if isinstance(t, (ast.Tuple, ast.List)) and isinstance(inner.elt, ast.Tuple) and len(t.elts) == len(inner.elt.elts) \
+                        and all(isinstance(x, ast.Name) for x in t.elts):
+                    mapping = {x.id: v for x, v in zip(t.elts, inner.elt.elts)}
+                elif isinstance(t, ast.Name):
+                    mapping = {t.id: inner.elt}
+                else:
+                    continue
+                inner_names = {n.id for tt, _ in inner.gens for n in ast.walk(tt) if isinstance(n, ast.Name)}
+                outer_names = {n.id for j, (tt, _) in enumerate(cur.gens) if j != i for n in ast.walk(tt) if isinstance(n, ast.Name)}
+                if inner_names & outer_names:
+                    continue          # would capture
+
+                class S(ast.NodeTransformer):
+                    def visit_Name(self, n):
+                        return clone(mapping[n.id]) if n.id in mapping and isinstance(n.ctx, ast.Load) else n
+                sub = lambda e_: S().visit(clone(e_))
+                gens = cur.gens[:i] + inner.gens + [(tt, sub(ii)) for tt, ii in cur.gens[i + 1:]]
+                conds = list(inner.conds) + [sub(c) for c in cur.conds]
+                cur = Builder(sub(cur.elt), gens, conds, cur.where)
+                changed = True
+                break
+            if not changed:
+                break
+        return cur
+
     def rename_map(self, upto=None):
         m = {}
         for i, (t, _) in enumerate(self.gens):
